@@ -26,7 +26,8 @@ use std::sync::{Arc, Mutex};
 pub type Ctx = HashMapContext<DefaultNumericTypes>;
 
 pub const H_VARS: [&str; 3] = ["a", "b", "f"];
-pub const H_FNS: [&str; 2] = ["f", "g"];
+/// function names of the histories; `len` coincides with a builtin (user functions must win)
+pub const H_FNS: [&str; 3] = ["f", "g", "len"];
 pub const BEHAVIOURS: [&str; 5] = ["f", "g", "h", "k", "n"];
 pub const MAX_ACTORS: usize = 4;
 
@@ -50,10 +51,19 @@ pub enum Op {
     SetBuiltinsDisabled(bool),
     /// a new actor starts from a clone of this actor's context; both continue
     Fork,
-    /// this actor's context is replaced by a clone of another actor's
-    Overwrite { from: usize },
+    /// this actor's context is replaced by a clone of another actor's (`a = b.clone()` or
+    /// `a.clone_from(&b)`)
+    Overwrite { from: usize, clone_from: bool },
     /// this actor's context is replaced by `HashMapContext::new()`
     Reset,
+    /// this actor's context is replaced by one built with the `context_map!` macro
+    /// (`a` = Int 7, `b` = Float 1.5, `f` = Boolean true as variables; function `g` = identity)
+    ResetMacro,
+    /// this actor's context is replaced by `HashMapContext::default()`
+    ResetDefault,
+    /// `count` variables `v0..v<count-1>` bound through the API (a large context: capacity-
+    /// dependent behaviour of the maps)
+    BulkSet { count: usize },
     /// metamorphic: on two throw-away clones, `x op= (e)` and `x = x op (e)` must agree
     OpAssignEquiv { name: String, op: AOp, rhs: Expr },
 }
@@ -79,9 +89,12 @@ impl Op {
             Op::SetFunction { .. } => "set_function".into(),
             Op::CallFunction { .. } => "call_function".into(),
             Op::SetBuiltinsDisabled(_) => "set_builtin_functions_disabled".into(),
+            Op::BulkSet { .. } => "bulk_set".into(),
             Op::Fork => "clone_fork".into(),
             Op::Overwrite { .. } => "clone_overwrite".into(),
             Op::Reset => "reset_new".into(),
+            Op::ResetMacro => "reset_context_map_macro".into(),
+            Op::ResetDefault => "reset_default".into(),
             Op::OpAssignEquiv { op, .. } => format!("opassign_equiv:{}", op.sym()),
         }
     }
@@ -128,9 +141,16 @@ impl Op {
                 if *fault { " [injected error]" } else { "" }
             ),
             Op::SetBuiltinsDisabled(b) => format!("set_builtin_functions_disabled({})", b),
+            Op::BulkSet { count } => format!("set_value(v0..v{}, Int)", count),
             Op::Fork => "fork: new actor = clone()".into(),
-            Op::Overwrite { from } => format!("overwrite with clone of actor {}", from),
+            Op::Overwrite { from, clone_from } => format!(
+                "overwrite with clone of actor {}{}",
+                from,
+                if *clone_from { " (clone_from)" } else { "" }
+            ),
             Op::Reset => "reset to HashMapContext::new()".into(),
+            Op::ResetMacro => "reset to context_map!{a => int 7, b => float 1.5, f => true, g => Function::new(identity)}".into(),
+            Op::ResetDefault => "reset to HashMapContext::default()".into(),
             Op::OpAssignEquiv { name, op, rhs } => format!(
                 "check `{} {} ({})` == `{} = {} {} ({})` on two clones",
                 name,
@@ -184,9 +204,15 @@ impl Op {
             Op::SetBuiltinsDisabled(b) => Json::obj()
                 .with("op", Json::s("set_builtin_functions_disabled"))
                 .with("disabled", Json::Bool(*b)),
+            Op::BulkSet { count } => Json::obj().with("op", Json::s("bulk_set")).with("count", Json::u(*count as u64)),
             Op::Fork => Json::obj().with("op", Json::s("fork")),
-            Op::Overwrite { from } => Json::obj().with("op", Json::s("overwrite")).with("from", Json::u(*from as u64)),
+            Op::Overwrite { from, clone_from } => Json::obj()
+                .with("op", Json::s("overwrite"))
+                .with("from", Json::u(*from as u64))
+                .with("clone_from", Json::Bool(*clone_from)),
             Op::Reset => Json::obj().with("op", Json::s("reset")),
+            Op::ResetMacro => Json::obj().with("op", Json::s("reset_macro")),
+            Op::ResetDefault => Json::obj().with("op", Json::s("reset_default")),
             Op::OpAssignEquiv { name, op, rhs } => Json::obj()
                 .with("op", Json::s("opassign_equiv"))
                 .with("name", Json::s(name.clone()))
@@ -243,9 +269,15 @@ impl Op {
                 fault: j.bool_field("fault")?,
             },
             "set_builtin_functions_disabled" => Op::SetBuiltinsDisabled(j.bool_field("disabled")?),
+            "bulk_set" => Op::BulkSet { count: j.u64_field("count")? as usize },
             "fork" => Op::Fork,
-            "overwrite" => Op::Overwrite { from: j.u64_field("from")? as usize },
+            "overwrite" => Op::Overwrite {
+                from: j.u64_field("from")? as usize,
+                clone_from: j.get("clone_from").and_then(|b| b.as_bool()).unwrap_or(false),
+            },
             "reset" => Op::Reset,
+            "reset_macro" => Op::ResetMacro,
+            "reset_default" => Op::ResetDefault,
             "opassign_equiv" => Op::OpAssignEquiv {
                 name: j.str_field("name")?.to_string(),
                 op: ALL_AOP
@@ -495,8 +527,8 @@ fn disarm(rec: Option<&Rec>) -> Option<Vec<Ev>> {
 fn build_tree(program: &Expr, form: Form) -> Result<(Node, Option<String>), String> {
     match form {
         Form::Assembled { wrap } => Ok((program.assemble(wrap), None)),
-        Form::Parsed => {
-            let src = program.render();
+        Form::Parsed | Form::ParsedLoose => {
+            let src = form.source(program);
             match build_operator_tree::<DefaultNumericTypes>(&src) {
                 Ok(t) => Ok((t, Some(src))),
                 Err(e) => Err(format!("{:?}", e)),
@@ -565,16 +597,25 @@ pub fn apply_real(ctx: &mut Ctx, op: &Op, rec: Option<&Rec>) -> String {
             let log = disarm(rec);
             format!("{} {}", r, render_log(log.as_deref()))
         },
+        Op::BulkSet { count } => guard(|| {
+            let mut errors = 0;
+            for i in 0..*count {
+                if ctx.set_value(format!("v{}", i), Value::Int(i as i64)).is_err() {
+                    errors += 1;
+                }
+            }
+            format!("errors={}", errors)
+        }),
         Op::GetValue { name } => guard(|| match ctx.get_value(name) {
             Some(v) => format!("Some({})", cv(v)),
             None => "None".to_string(),
         }),
         Op::IterVars => guard(|| {
-            let mut v: Vec<String> = ctx
-                .iter_variables()
-                .map(|(n, v)| format!("{}={}", n, cv(&v)))
-                .collect();
-            v.sort();
+            // sorted by name, like the model's map
+            let mut pairs: Vec<(String, String)> =
+                ctx.iter_variables().map(|(n, v)| (n, cv(&v))).collect();
+            pairs.sort();
+            let v: Vec<String> = pairs.iter().map(|(n, v)| format!("{}={}", n, v)).collect();
             format!("[{}]", v.join(", "))
         }),
         Op::IterNames => guard(|| {
@@ -645,7 +686,51 @@ pub fn apply_real(ctx: &mut Ctx, op: &Op, rec: Option<&Rec>) -> String {
                 }
             })
         },
-        Op::Fork | Op::Overwrite { .. } | Op::Reset => "()".to_string(),
+        Op::Fork | Op::Overwrite { .. } | Op::Reset | Op::ResetMacro | Op::ResetDefault => {
+            "()".to_string()
+        },
+    }
+}
+
+/// Closure of the macro-built context's function `g` (identity sentinel), recording like the
+/// other user functions when a recorder is given.
+fn macro_function(rec: Option<Rec>) -> impl Fn(&V) -> R + Send + Sync + Clone + 'static {
+    move |arg: &V| {
+        if let Some(rec) = &rec {
+            let mut r = rec.lock().unwrap();
+            if r.enabled && r.closures_record {
+                let idx = r.log.len();
+                r.log.push(Ev::Call("g".to_string(), cv(arg)));
+                if r.faults.binary_search(&idx).is_ok() {
+                    r.fired.push((idx, crate::env::FaultKind::CallError));
+                    return Err(injected_error(idx));
+                }
+            }
+        }
+        Ok(sentinel("f", arg))
+    }
+}
+
+/// The context (and its model) a reset operation installs.
+pub fn fresh_context(op: &Op, rec: Option<&Rec>) -> (Ctx, Model) {
+    match op {
+        Op::ResetMacro => {
+            let ctx: Ctx = evalexpr::context_map! {
+                "a" => int 7,
+                "b" => float 1.5,
+                "f" => Value::Boolean(true),
+                "g" => Function::new(macro_function(rec.cloned()))
+            }
+            .expect("context_map!");
+            let mut model = Model::default();
+            model.vars.insert("a".into(), Value::Int(7));
+            model.vars.insert("b".into(), Value::Float(1.5));
+            model.vars.insert("f".into(), Value::Boolean(true));
+            model.fns.insert("g".into(), "f".into());
+            (ctx, model)
+        },
+        Op::ResetDefault => (Ctx::default(), Model::default()),
+        _ => (Ctx::new(), Model::default()),
     }
 }
 
@@ -699,6 +784,15 @@ pub fn apply_model(
                 cr(&r),
                 render_log(if record_calls { Some(&env.log) } else { None })
             )
+        },
+        Op::BulkSet { count } => {
+            let mut errors = 0;
+            for i in 0..*count {
+                if set_model(m, &format!("v{}", i), Value::Int(i as i64)).is_err() {
+                    errors += 1;
+                }
+            }
+            format!("errors={}", errors)
         },
         Op::GetValue { name } => match m.vars.get(name) {
             Some(v) => format!("Some({})", cv(v)),
@@ -762,7 +856,9 @@ pub fn apply_model(
             }
             "equivalent".to_string()
         },
-        Op::Fork | Op::Overwrite { .. } | Op::Reset => "()".to_string(),
+        Op::Fork | Op::Overwrite { .. } | Op::Reset | Op::ResetMacro | Op::ResetDefault => {
+            "()".to_string()
+        },
     })
 }
 
@@ -825,20 +921,32 @@ pub fn run_history(
                 }
                 ("()".to_string(), "()".to_string())
             },
-            Op::Overwrite { from } => {
+            Op::Overwrite { from, clone_from } => {
                 let f = from % actors.len();
                 if f != a {
-                    let ctx = actors[f].ctx.clone();
+                    if *clone_from {
+                        let (src, dst) = if f < a {
+                            let (l, r) = actors.split_at_mut(a);
+                            (&l[f], &mut r[0])
+                        } else {
+                            let (l, r) = actors.split_at_mut(f);
+                            (&r[0], &mut l[a])
+                        };
+                        dst.ctx.clone_from(&src.ctx);
+                    } else {
+                        let ctx = actors[f].ctx.clone();
+                        actors[a].ctx = ctx;
+                    }
                     let model = actors[f].model.clone();
-                    actors[a].ctx = ctx;
                     actors[a].model = model;
                     stats.inc("fault_fired.clone_overwrite");
                 }
                 ("()".to_string(), "()".to_string())
             },
-            Op::Reset => {
-                actors[a].ctx = Ctx::new();
-                actors[a].model = Model::default();
+            Op::Reset | Op::ResetDefault | Op::ResetMacro => {
+                let (ctx, model) = fresh_context(&step.op, Some(&rec));
+                actors[a].ctx = ctx;
+                actors[a].model = model;
                 stats.inc("fault_fired.reset");
                 ("()".to_string(), "()".to_string())
             },
@@ -961,7 +1069,7 @@ fn classify_faults(op: &Op, expected: &str, stats: &mut Stats) {
 pub struct HistCfg {
     pub steps: usize,
     pub fault_free: bool,
-    pub weights: [u32; 16],
+    pub weights: [u32; 17],
     pub well_typed_pct: u64,
 }
 
@@ -969,7 +1077,7 @@ pub fn hist_cfg(rng: &mut Rng) -> HistCfg {
     let fault_free = rng.percent(25);
     // op order: set_value, eval_mut, eval_imm, get_value, iter_vars, iter_names, clear_vars,
     // clear_fns, clear, set_function, call_function, set_builtins, fork, overwrite, reset, equiv
-    let mut weights: [u32; 16] = [14, 30, 5, 3, 2, 2, 3, 2, 2, 5, 4, 3, 5, 3, 1, 6];
+    let mut weights: [u32; 17] = [14, 30, 5, 3, 2, 2, 3, 2, 2, 5, 4, 3, 5, 3, 1, 6, 1];
     // swarm: switch some operation kinds off or up per run
     for w in weights.iter_mut() {
         match rng.below(6) {
@@ -1039,8 +1147,13 @@ pub fn gen_history(work: &mut Rng, sched: &mut Rng, conf: &mut Rng, d: &mut Dele
                 let n = name(work);
                 let value = match model.vars.get(&n) {
                     Some(old) if work.percent(cfg.well_typed_pct) => {
-                        // same type: overwrite (for tuples possibly another length)
-                        let p = crate::gen::pool(ty_of(old));
+                        // same type: overwrite (for tuples possibly another length, incl. the
+                        // empty and the one-element tuple, which only the API can produce)
+                        let mut p = crate::gen::pool(ty_of(old));
+                        if ty_of(old) == Ty::Tuple {
+                            p.push(Value::Tuple(vec![]));
+                            p.push(Value::Tuple(vec![Value::Int(7)]));
+                        }
                         work.pick(&p).clone()
                     },
                     _ => any_value(work),
@@ -1056,7 +1169,7 @@ pub fn gen_history(work: &mut Rng, sched: &mut Rng, conf: &mut Rng, d: &mut Dele
                     1 => Form::Assembled { wrap: false },
                     _ => Form::Assembled { wrap: true },
                 };
-                let entry = if form == Form::Parsed && work.percent(50) { Entry::Str } else { Entry::Tree };
+                let entry = if form.is_parsed() && work.percent(50) { Entry::Str } else { Entry::Tree };
                 let faults = if !cfg.fault_free && work.percent(20) {
                     vec![work.usize_below(3)]
                 } else {
@@ -1087,8 +1200,18 @@ pub fn gen_history(work: &mut Rng, sched: &mut Rng, conf: &mut Rng, d: &mut Dele
             },
             11 => Op::SetBuiltinsDisabled(work.percent(50)),
             12 => Op::Fork,
-            13 => Op::Overwrite { from: sched.usize_below(models.len()) },
-            14 => Op::Reset,
+            13 => Op::Overwrite {
+                from: sched.usize_below(models.len()),
+                clone_from: work.percent(50),
+            },
+            14 => match work.below(3) {
+                0 => Op::Reset,
+                1 => Op::ResetDefault,
+                _ => Op::ResetMacro,
+            },
+            16 => Op::BulkSet {
+                count: *work.pick(&[8usize, 30, 60, 120]),
+            },
             _ => {
                 // metamorphic op-assign check on a bound variable, with an effect-free operand
                 let bound: Vec<String> = model.vars.keys().cloned().collect();
@@ -1124,12 +1247,12 @@ pub fn gen_history(work: &mut Rng, sched: &mut Rng, conf: &mut Rng, d: &mut Dele
                     models.push(m);
                 }
             },
-            Op::Overwrite { from } => {
+            Op::Overwrite { from, .. } => {
                 let f = from % models.len();
                 let m = models[f].clone();
                 models[a] = m;
             },
-            Op::Reset => models[a] = Model::default(),
+            Op::Reset | Op::ResetDefault | Op::ResetMacro => models[a] = fresh_context(&op, None).1,
             other => {
                 let mut m = models[a].clone();
                 if apply_model(&mut m, other, d, true).is_ok() {
@@ -1171,7 +1294,7 @@ pub fn shrink_history(h: &History) -> Vec<History> {
         match &step.op {
             Op::EvalMut { program, form, entry, faults } => {
                 for p in program.shrink_candidates() {
-                    if *form == Form::Parsed && !p.is_renderable() {
+                    if form.is_parsed() && !p.is_renderable() {
                         continue;
                     }
                     variants.push(Op::EvalMut { program: p, form: *form, entry: *entry, faults: faults.clone() });
@@ -1190,7 +1313,7 @@ pub fn shrink_history(h: &History) -> Vec<History> {
             },
             Op::EvalImm { program, form, entry, faults } => {
                 for p in program.shrink_candidates() {
-                    if *form == Form::Parsed && !p.is_renderable() {
+                    if form.is_parsed() && !p.is_renderable() {
                         continue;
                     }
                     variants.push(Op::EvalImm { program: p, form: *form, entry: *entry, faults: faults.clone() });
@@ -1208,6 +1331,10 @@ pub fn shrink_history(h: &History) -> Vec<History> {
                 for v in shrink_val(value) {
                     variants.push(Op::SetValue { name: name.clone(), value: v });
                 }
+            },
+            Op::BulkSet { count } if *count > 1 => {
+                variants.push(Op::BulkSet { count: count / 2 });
+                variants.push(Op::BulkSet { count: count - 1 });
             },
             Op::CallFunction { name, arg, fault } => {
                 for v in shrink_val(arg) {
@@ -1316,8 +1443,8 @@ pub fn plan_threaded(h: &History, d: &mut Delegate) -> Vec<Vec<PlannedStep>> {
                     continue;
                 }
             },
-            Op::Reset => {
-                models[a] = Model::default();
+            Op::Reset | Op::ResetDefault | Op::ResetMacro => {
+                models[a] = fresh_context(&op, None).1;
                 "()".to_string()
             },
             other => {
